@@ -130,6 +130,10 @@ class StoreJudge:
             # an API call at this instant may leave internal events pending (timers, trigger events)
             if self.timed or self.filter: self.quiescent = False if k in ("put",) else self.quiescent
         if self.family in ("fleet", "slot", "cbelt"): self.quiescent = True     # availability is reported explicitly, the triggers run inside the move
+        if head == "err Hang":
+            self.v("C20", f"the call {' '.join(map(str, op))} did not return: the real code loops without end (watchdog, stores_impl.OP_TIMEOUT)", "livelock")
+            self._belt_broken = True
+            return
         if head.startswith("err") and k in ("adv", "settle", "kstep", "ev"):
             self.v("C20", f"exception escaped the kernel during {k}: {head}")
             self._belt_broken = True
